@@ -7,6 +7,7 @@ package main
 // roots in big.Int, and the bucket rule [sqrt(t), sqrt(t+1)) -> t.
 
 import (
+	"sync"
 	"fmt"
 	"math/big"
 
@@ -176,6 +177,30 @@ func (s *c14State) checkBucket(t int64, lo, hi *big.Int, r *vk.Rng) {
 		got, err := clmath.CalculateSqrtPriceToTick(mkBD(x))
 		if err != nil || got != t {
 			c.Violate("C14.bucket", map[string]any{"regime": regime(t)}, "sqrt price %s/1e36 in [sqrt(%d)=%s, sqrt(%d)=%s) mapped to tick %d (%v)", x, t, lo, t+1, hi, got, err)
+		}
+		// the same with rounding to a spacing: the multiple of the spacing at or below the bucket's tick
+		sp := []int64{1, 10, 100, 1000, 7}[r.Intn(5)]
+		want := t - ((t%sp)+sp)%sp
+		if want >= c14MinInit {
+			g2, e2 := clmath.SqrtPriceToTickRoundDownSpacing(mkBD(x), uint64(sp))
+			if e2 != nil || g2 != want {
+				c.Violate("C14.bucket", map[string]any{"regime": regime(t), "spacing": true}, "SqrtPriceToTickRoundDownSpacing(%s/1e36, %d) = %d (%v); the price lies in tick %d's bucket, so the answer is %d", x, sp, g2, e2, t, want)
+			}
+		}
+	}
+	// just below the lower edge: the last representable sqrt price of the previous bucket, with every spacing
+	if t-1 >= c14MinInit {
+		below := new(big.Int).Sub(lo, bigOne)
+		for _, sp := range []int64{10, 100, 1000} {
+			want := (t - 1) - (((t-1)%sp)+sp)%sp
+			if want < c14MinInit {
+				continue
+			}
+			c.Eval(1)
+			g2, e2 := clmath.SqrtPriceToTickRoundDownSpacing(mkBD(below), uint64(sp))
+			if e2 != nil || g2 != want {
+				c.Violate("C14.bucket", map[string]any{"regime": regime(t), "spacing": true}, "SqrtPriceToTickRoundDownSpacing(sqrt(%d) - 1e-36, %d) = %d (%v), expected %d", t, sp, g2, e2, want)
+			}
 		}
 	}
 	c.Count("bucket_points", int64(len(cands)))
@@ -386,5 +411,43 @@ func runC14Concurrent(c *vk.Ctx) {
 			return
 		}
 		c.Class("concurrent|batch-of-600|8-goroutines")
+		// a few ticks a power of two apart, converted over and over by different goroutines (memo tables indexed by the
+		// low bits of the tick would map them to one slot)
+		stride := int64(1) << uint(4+r.Intn(14))
+		base := r.Range(-100000000, 300000000)
+		ticks := []int64{base, base + stride, base + 2*stride, base - stride}
+		ref := make([]string, len(ticks))
+		for k, t := range ticks {
+			v, err := clmath.TickToSqrtPrice(t)
+			ref[k] = fmt.Sprint(v, err)
+		}
+		var badMu sync.Mutex
+		bad := ""
+		var wg sync.WaitGroup
+		for g := 0; g < 8; g++ {
+			wg.Add(1)
+			go func(g int) {
+				defer wg.Done()
+				k := g % len(ticks)
+				for n := 0; n < 4000; n++ {
+					v, err := clmath.TickToSqrtPrice(ticks[k])
+					if got := fmt.Sprint(v, err); got != ref[k] {
+						badMu.Lock()
+						if bad == "" {
+							bad = fmt.Sprintf("TickToSqrtPrice(%d) = %s while other goroutines convert ticks %d apart, %s when called alone", ticks[k], got, stride, ref[k])
+						}
+						badMu.Unlock()
+						return
+					}
+				}
+			}(g)
+		}
+		wg.Wait()
+		c.Eval(32000)
+		if bad != "" {
+			c.Violate("C14.concurrent_callers", map[string]any{"fn": "TickToSqrtPrice", "colliding_ticks": true}, "%s", bad)
+			return
+		}
+		c.Class("concurrent|power-of-two-strides")
 	})
 }
